@@ -365,7 +365,7 @@ Definition rename_in (k : rk) (old new : string) (p : list string) : list string
 
 Definition name_module (k : rk) : string :=
   match k with
-  | KS1 => "segment_name_gfa1" | KP => "path_name_gfa1" | KS2 => "identifier_gfa2"
+  | KS1 => "segment_name_gfa1" | KP => "path_name_gfa1" | KS2 | KUnk => "identifier_gfa2"
   | KE | KGp | KO | KU => "optional_identifier_gfa2"
   | _ => "generic"
   end.
